@@ -254,6 +254,23 @@ def generate(model: Model):
     except Exception:  # noqa: BLE001
         pass
     try:
+        mod, tree = _fresh("_groupby")
+        for fn in (x for x in tree.body if isinstance(x, ast.FunctionDef) and x.name == "groupby_projection"):
+            for st in (x for x in ast.walk(fn) if isinstance(x, ast.If) and "_slice" in ast.unparse(x.test)):
+                yield "mutant", "revert:groupby-slice-follows-pruned-frame", "R04j", mod.rel, _drop_stmt(mod, st)
+        for cdef in (x for x in tree.body if isinstance(x, ast.ClassDef) and x.name == "Cov"):
+            for fn in (x for x in cdef.body if isinstance(x, ast.FunctionDef) and x.name == "_simplify_up"):
+                yield "mutant", "revert:groupby-cov-prunes-input", "R04k", mod.rel, _splice(mod.source, fn, "_simplify_up_disabled = None")
+        mod, tree = _fresh("_rolling")
+        for cdef in (x for x in tree.body if isinstance(x, ast.ClassDef) and x.name == "RollingCov"):
+            for fn in (x for x in cdef.body if isinstance(x, ast.FunctionDef) and x.name == "_simplify_up"):
+                yield "mutant", "revert:rolling-cov-prunes-input", "R04k", mod.rel, _splice(mod.source, fn, "_simplify_up_disabled = None")
+        for cdef in (x for x in tree.body if isinstance(x, ast.ClassDef) and x.name == "RollingReduction"):
+            for st in (x for x in ast.walk(cdef) if isinstance(x, ast.If) and "groupby_slice" in ast.unparse(x.test)):
+                yield "mutant", "revert:rolling-groupby-slice-follows-pruned-frame", "R04j", mod.rel, _drop_stmt(mod, st)
+    except Exception:  # noqa: BLE001
+        pass
+    try:
         mod, tree = _fresh("_merge")
         for c in (x for x in ast.walk(tree) if isinstance(x, ast.UnaryOp) and isinstance(x.op, ast.Not) and "leftsemi" in ast.unparse(x) and "broadcast_side" in ast.unparse(x)):
             yield "mutant", "revert:leftsemi-left-broadcast", "R10f", mod.rel, _splice(mod.source, c, "True")
